@@ -90,3 +90,27 @@ theorem shiftSig_value (low : List Nat) :
     simp [hv]
 
 end T2N
+
+namespace T2N
+open DS
+
+theorem shift_eq (b : DS) (p : Nat) (hf : b.frozen = false) (hp : p ≠ 0) :
+    b.shift p =
+      match shiftBuf (if b.rbuf.isEmpty then [1] else b.rbuf) p with
+      | some r => (none, { b with rbuf := r })
+      | none => (some .overlap, b) := by
+  unfold DS.shift
+  rw [if_neg (by simp [hf]), if_neg (by simpa using hp)]
+  cases shiftBuf (if b.rbuf.isEmpty then [1] else b.rbuf) p <;> rfl
+
+theorem shiftBuf_one (p : Nat) (hp : p ≠ 0) : shiftBuf [1] p = some (List.replicate p 0 ++ [1]) := by
+  unfold shiftBuf
+  have : [1].length ≤ p := by simp; omega
+  rw [if_pos this]
+
+theorem shift_not_frozen {b : DS} {p : Nat} (hok : (b.shift p).1 = none) : b.frozen = false := by
+  cases hfr : b.frozen with
+  | false => rfl
+  | true => simp [DS.shift, hfr] at hok
+
+end T2N
